@@ -40,6 +40,7 @@ def unary_ops(d, mom):
             ("abs", lambda v: abs(v)), ("v**2", lambda v: v ** 2), ("v**3", lambda v: v ** 3), ("numpy.sqrt", lambda v: np.sqrt(v)), ("numpy.cbrt", lambda v: np.cbrt(v)),
             ("numpy.power(v,3)", lambda v: np.power(v, 3)), ("numpy.absolute", lambda v: np.absolute(v)), ("numpy.square", lambda v: np.square(v)),
             ("to_Vector2D", lambda v: v.to_Vector2D()), ("to_Vector3D", lambda v: v.to_Vector3D()), ("to_Vector4D", lambda v: v.to_Vector4D()),
+            ("to_2D", lambda v: v.to_2D()), ("to_3D", lambda v: v.to_3D()), ("to_4D", lambda v: v.to_4D()),
             ("to_xy", lambda v: v.to_xy()), ("to_rhophi", lambda v: v.to_rhophi()), ("to_xyzt(z,t)", lambda v: v.to_xyzt(z=0.7, t=9.0)),
             ("to_rhophietatau(eta,tau)", lambda v: v.to_rhophietatau(eta=0.4, tau=1.3)), ("to_xytheta(theta)", lambda v: v.to_xytheta(theta=1.1))]
     if d == 2:
@@ -66,7 +67,7 @@ def unary_ops(d, mom):
 
 
 def binary_ops(d, d2):
-    ops = [("deltaphi", lambda a, b: a.deltaphi(b))]
+    ops = [("deltaphi", lambda a, b: a.deltaphi(b)), ("like", lambda a, b: a.like(b))]
     if d == d2:
         ops += [("add", lambda a, b: a.add(b)), ("subtract", lambda a, b: a.subtract(b)), ("a+b", lambda a, b: a + b), ("a-b", lambda a, b: a - b),
                 ("dot", lambda a, b: a.dot(b)), ("a@b", lambda a, b: a @ b), ("equal", lambda a, b: a.equal(b)), ("a==b", lambda a, b: a == b), ("a!=b", lambda a, b: a != b),
@@ -319,6 +320,8 @@ def run_binary(F, s1, s2, m1, m2, pairings, seed):
                 continue        # probed separately (known finding C05 '@ on Awkward')
             if name in ("a==b", "a!=b", "numpy.equal", "numpy.not_equal") and "ak-record" in (l1, l2):
                 continue        # probed separately (known finding C18 'operators on records')
+            if name == "like" and AR.nest(l1) != AR.nest(l2) and l2 != "object":
+                continue        # like() is not a broadcasting operation: the result has the structure of its first operand only
             if name == "allclose" and l1 in ("object", "ak-record"):
                 continue        # allclose is a method of arrays only
             if name in ("numpy.isclose", "numpy.allclose") and (l1.startswith("ak") or l2.startswith("ak")):
